@@ -39,31 +39,31 @@ _ZNSt7__cxx1112basic_stringIcSt11char_traitsIcESaIcEE10_M_replaceEmmPKcm(char* s
     memcpy(str->p, s, len2); str->p[len2] = 0; str->size = len2;
     return self;
 }
-/* regex object: 32 bytes; the model keeps a regex_t* in the shared_ptr's pointer slot (+16) and
- * leaves the control block (+24) NULL so the translated release code does nothing */
+/* regex object: 32 bytes; the model keeps a pointer to its two compiled forms (anchored for
+ * regex_match, plain for regex_search) in the shared_ptr's pointer slot (+16) and leaves the
+ * control block (+24) NULL so the translated release code does nothing */
+struct two { regex_t anchored, plain; };
 void
 _ZNSt7__cxx1111basic_regexIcNS_12regex_traitsIcEEE10_M_compileEPKcS5_NSt15regex_constants18syntax_option_typeE(char* self, char* first, char* last, uint32_t flags)
 {
     size_t n = (size_t)(last - first);
     char* buf = malloc(n + 8);
-    regex_t probe;
+    int cf = REG_EXTENDED | REG_NOSUB | ((flags & 1) ? REG_ICASE : 0);
+    struct two* re = malloc(sizeof *re);
     memcpy(buf, first, n); buf[n] = 0;
-    if (regcomp(&probe, buf, REG_EXTENDED | REG_NOSUB) != 0) { free(buf); lib_throw("regex_error"); return; }
-    regfree(&probe);
+    if (regcomp(&re->plain, buf, cf) != 0) { free(buf); free(re); lib_throw("regex_error"); return; }
     buf[0] = '^'; buf[1] = '('; memcpy(buf + 2, first, n); memcpy(buf + 2 + n, ")$", 3);
-    regex_t* re = malloc(sizeof *re);
-    if (regcomp(re, buf, REG_EXTENDED | REG_NOSUB | ((flags & 1) ? REG_ICASE : 0)) != 0) { free(buf); free(re); lib_throw("regex_error"); return; }
+    if (regcomp(&re->anchored, buf, cf) != 0) { regfree(&re->plain); free(buf); free(re); lib_throw("regex_error"); return; }
     free(buf);
-    *(regex_t**)(self + 16) = re;
+    *(struct two**)(self + 16) = re;
 }
-void _ZNSt7__cxx1111basic_regexIcNS_12regex_traitsIcEEED2Ev(char* self) { regex_t* re = *(regex_t**)(self + 16); if (re) { regfree(re); free(re); } }
+void _ZNSt7__cxx1111basic_regexIcNS_12regex_traitsIcEEED2Ev(char* self) { struct two* re = *(struct two**)(self + 16); if (re) { regfree(&re->anchored); regfree(&re->plain); free(re); } }
 void _ZNSt12__shared_ptrIKNSt8__detail4_NFAINSt7__cxx1112regex_traitsIcEEEELN9__gnu_cxx12_Lock_policyE2EED2Ev(char* self) {}
 void _ZNSt16_Sp_counted_baseILN9__gnu_cxx12_Lock_policyE2EE24_M_release_last_use_coldEv(char* self) {}
 uint8_t
 _ZNSt8__detail17__regex_algo_implIPKcSaINSt7__cxx119sub_matchIS2_EEEcNS3_12regex_traitsIcEEEEbT_S9_RNS3_13match_resultsIS9_T0_EERKNS3_11basic_regexIT1_T2_EENSt15regex_constants15match_flag_typeENS_20_RegexExecutorPolicyEb(
   char* s, char* e, char* results, char* re_, uint32_t flags, uint32_t policy, uint8_t match_mode)
 {
-    regex_t* re = *(regex_t**)(re_ + 16);
-    if (!match_mode) { fprintf(stderr, "search mode\n"); abort(); }
-    return regexec(re, s, 0, 0, 0) == 0;
+    struct two* re = *(struct two**)(re_ + 16);
+    return regexec(match_mode ? &re->anchored : &re->plain, s, 0, 0, 0) == 0;
 }
